@@ -83,7 +83,12 @@ func (evt *endEvent) NextAction(ctx context.Context, flow Flow) chan IAction {
 	})
 
 	response := make(chan IAction, 1)
-	evt.mch <- nextActionMessage{response: response}
+	// the run loop exits when ctx is done: a flow arriving then must not wait
+	// for room in an inbox nobody drains any more
+	select {
+	case evt.mch <- nextActionMessage{response: response}:
+	case <-ctx.Done():
+	}
 	return response
 }
 
